@@ -215,6 +215,28 @@ def cbfDiscard (o k : Nat) (s : St) : St :=
              reg := upd2 (upd2 s.reg o 8 (s.cbfTok k)) o 10 1 }
   else { s with reg := upd2 s.reg o 10 0 }
 
+/-! `_cbf_discard` with a LOCK-FREE look-up in front of the section – NOT the code (`blocks_cbf_discard`: the function is ONE
+`_cbf_lock` section containing its only access to the buffer); used by `Props.C15.cbf_discard_unlocked_witness` only, which
+shows what the section buys: removal by the discard and removal by the expiry exclude each other. -/
+
+/-- `old_timer = self._cbf_buffer.get(key)` without the lock; `if old_timer is None: return False` -/
+def cbfPeek (o k : Nat) (s : St) : St :=
+  { s with reg := upd2 (upd2 s.reg o 8 (s.cbfTok k)) o 10 (if s.cbf k then 1 else 0) }
+
+/-- `old_timer.cancel()`, then `pop(key, None)` under the lock, `return True`: the discard reports a completed cancellation
+whether or not the entry it saw is still there -/
+def cbfPopLate (o k : Nat) (s : St) : St :=
+  if s.reg o 10 = 1 then
+    { s with cbf := upd s.cbf k false, cbfCan := upd s.cbfCan k (s.cbfCan k + 1), tCancelled := upd s.tCancelled (s.reg o 8) true }
+  else s
+
+def discardUnlocked (o k : Nat) : List (Instr St) := [.blk (cbfPeek o k), .acq lkCbf, .blk (cbfPopLate o k), .rel lkCbf]
+
+/-- the code: the section, then `old_timer.cancel()` -/
+def discardLocked (o k : Nat) : List (Instr St) :=
+  [.acq lkCbf, .blk (cbfDiscard o k), .rel lkCbf,
+   .blk (whenReg o 10 1 (fun s => { s with tCancelled := upd s.tCancelled (s.reg o 8) true }))]
+
 /-- `de_entry = self.location_table.get_entry(dest)`; usable (register 3 := 1) iff it exists and (`fx`, commit
 "GeoUnicast requests issued during a pending location-service lookup keep their order") is not a pending placeholder;
 otherwise register 3 := 2 (0 = the request body is not active) -/
@@ -342,6 +364,23 @@ def lsReplyPop (o d : Nat) (s : St) : St :=
            regL := upd s.regL o (s.lsBuf d), lsFlight := upd s.lsFlight d (s.lsBuf d ++ s.lsFlight d), lsBuf := upd s.lsBuf d [],
            lsPops := upd s.lsPops d (s.lsPops d + 1),
            pending := if s.loct d then upd s.pending d false else s.pending }
+
+/-- the section with `buffered = self._ls_packet_buffers.get(addr, [])` instead of `.pop(addr, [])` – NOT the code (the pop is
+what hands every buffered request to exactly ONE reply thread: `lsReplyPop_empties`); used by
+`Props.C15.ls_flush_twice_witness` only.  The entry is deleted after the flush loop (`lsReplyForget`). -/
+def lsReplyPeek (o d : Nat) (s : St) : St :=
+  { lsReplyPop o d s with lsBuf := s.lsBuf }
+
+/-- (`if self._ls_packet_buffers.get(addr) is buffered: del …` – the identity test is not modelled: no request is buffered in
+between in the witness) -/
+def lsReplyForget (d : Nat) (s : St) : St := { s with lsBuf := upd s.lsBuf d [] }
+
+/-- after the reply section the buffer of the destination is empty: a second reply handled afterwards – by whatever thread, at
+whatever later point, unless a new request was buffered in between – gets nothing to flush -/
+theorem lsReplyPop_empties (o d : Nat) (s : St) : (lsReplyPop o d s).lsBuf d = [] := by simp [lsReplyPop, upd]
+
+theorem lsReplyPop_second_gets_nothing (o o' d : Nat) (s : St) : (lsReplyPop o' d (lsReplyPop o d s)).regL o' = [] := by
+  simp [lsReplyPop, upd]
 
 /-- `if timer is not None: timer.cancel()` after the section -/
 def lsReplyCancel (o : Nat) (s : St) : St := { s with tCancelled := upd s.tCancelled (s.reg o 8) true }
@@ -535,6 +574,11 @@ def gucNoCounterT (o r d : Nat) : List TI :=
 
 def gucNoCounter (o r d : Nat) : List (Instr St) := (gucNoCounterT o r d).map TI.erase
 
+/-- `lsReply o d 1 fx` with the peeking section and the late delete (see `lsReplyPeek`) -/
+def lsReplyPeekProg (o d : Nat) (fx : Bool) : List (Instr St) :=
+  (tsect lkLocT (.blk (loctLearn d)) ++ tsect2 lkLs lkLocT (.blk (lsReplyPeek o d)) ++ [TI.gblk o 10 1 (lsReplyCancel o)] ++
+    flushIter o d fx 0 ++ tsect lkLs (.blk (lsReplyForget d))).map TI.erase
+
 /-- a thread performs its operations one after the other -/
 def threadProg (ops : List Op) : List (Instr St) := (ops.map compile).flatten
 
@@ -549,6 +593,10 @@ theorem blocks_get_sequence_number :
     shape .Router_get_sequence_number = [([.Router_sequence_number_lock], [.Router_sequence_number])] := by decide
 
 theorem blocks_cbf_timeout : shape .Router__cbf_timeout = [([.Router__cbf_lock], [.Router__cbf_buffer])] := by decide
+
+/-- `_cbf_discard`: the look-up-and-remove of the buffered copy is ONE `_cbf_lock` section and the function touches the buffer
+nowhere else (a lock-free look-up in front of the section would be a second entry: `cbfPeek`) -/
+theorem blocks_cbf_discard : shape .Router__cbf_discard = [([.Router__cbf_lock], [.Router__cbf_buffer])] := by decide
 
 theorem blocks_cbf_forwarding :
     shape .Router_gn_area_cbf_forwarding = [([.Router__cbf_lock], [.Router__cbf_buffer, .Router_ego_position_vector])] := by
@@ -599,6 +647,12 @@ theorem blocks_ls_reply :
     shape .Router_gn_data_indicate_ls_reply =
       [([.Router__ls_lock], [.Router__ls_packet_buffers, .Router__ls_retransmit_counters, .Router__ls_timers, .ext_ls_pending])] := by
   decide
+
+/-- … and that ONE section's access to `_ls_packet_buffers` is a WRITE (`pop`: read-and-remove in one dict operation), the
+`lsReplyPop` block; a `get` there (entry deleted in a later section) is `lsReplyPeek` -/
+theorem ls_reply_pops_buffer :
+    (blocks .Router_gn_data_indicate_ls_reply).map (fun b => (b.1, b.2.filter (fun x => x.1 == .Router__ls_packet_buffers))) =
+      [([.Router__ls_lock], [(.Router__ls_packet_buffers, .write)])] := by decide
 
 theorem blocks_send_ls_request :
     shape .Router__send_ls_request_packet = [([.Router_ego_position_vector_lock], [.Router_ego_position_vector])] := by decide
